@@ -137,7 +137,7 @@ def mutate_mp(rng, body, boundary, layout):
     return body, 'none'
 
 
-def gen_case(rng, tier):
+def _gen_case(rng, tier):
     kind = rng.choice(['random', 'mp_mut', 'mp_mut', 'mp_mut', 'mp_trunc', 'json', 'json', 'urlenc', 'mp_valid'])
     case = {'kind': kind, 'muts': []}
     boundary = None
@@ -276,7 +276,7 @@ def expand_unit(u):
                    'sched': {'mode': 'full'} if k % 2 else {'mode': 'regular', 'k': 7}, 'touch': touch}
 
 
-def summarise(case):
+def _summarise(case):
     c = dict(case)
     b = unhx(case['body'])
     c['body'] = b[:200].decode('latin1') + ('...' if len(b) > 200 else '')
@@ -301,7 +301,7 @@ def _complete_part(body, d, data):
         start = i + 1
 
 
-def run_case(case):
+def _run_case(case):
     res = new_result()
     log = Log(case.get('_seed'))
     body = unhx(case['body'])
@@ -406,7 +406,7 @@ def _group(pairs):
     return {k: [x if isinstance(x, bytes) else x for x in vs] for k, vs in g.items()}
 
 
-def shrink_candidates(case):
+def _shrink_candidates(case):
     for sc in simpler_schedules(case['sched']):
         yield dict(case, sched=sc)
     if case['framing']['kind'] != 'cl':
@@ -433,3 +433,32 @@ def shrink_candidates(case):
     if case.get('boundary') and case['boundary'] != 'b' and case['ctype'] and case['boundary'] in case['ctype']:
         nb = body.replace(case['boundary'].encode(), b'b')
         yield dict(base, body=hx(nb), boundary='b', ctype=case['ctype'].replace(case['boundary'], 'b'))
+
+
+# ---- concurrent twin runs (sim.twin): a share of the seeded cases is served by 2-3 threads at once --------
+from .. import twin as _twin   # noqa: E402
+
+TWIN_SHARE = 0.05
+
+
+def gen_case(rng, tier):
+    return _twin.maybe_wrap(rng, _gen_case(rng, tier), TWIN_SHARE)
+
+
+def run_case(case):
+    if 'twin' in case:
+        return _twin.run(lambda inner, i: _run_case(inner), case)
+    return _run_case(case)
+
+
+def shrink_candidates(case):
+    if 'twin' in case:
+        yield from _twin.shrink_candidates(case, _shrink_candidates)
+        return
+    yield from _shrink_candidates(case)
+
+
+def summarise(case):
+    if 'twin' in case:
+        return {'twin_of': _summarise(case["twin"]), 'threads': case.get('n', 2), 'plan': case['plan']}
+    return _summarise(case)
